@@ -382,9 +382,9 @@ impl DrawTarget {
             buf: vec![0; (width * height) as usize],
             clip_stack: Vec::new(),
             layer_stack: Vec::new(),
-            transform: Transform::identity(),
             #[cfg(raqote_verif)]
             verif_id: crate::verif_trace::new_id(width, height),
+            transform: Transform::identity(),
         }
     }
 
@@ -400,9 +400,9 @@ impl DrawTarget {
             buf: vec,
             clip_stack: Vec::new(),
             layer_stack: Vec::new(),
-            transform: Transform::identity(),
             #[cfg(raqote_verif)]
             verif_id: crate::verif_trace::new_id(width, height),
+            transform: Transform::identity()
         }
     }
 
@@ -429,9 +429,9 @@ impl<Backing : AsRef<[u32]> + AsMut<[u32]>> DrawTarget<Backing> {
             buf,
             clip_stack: Vec::new(),
             layer_stack: Vec::new(),
-            transform: Transform::identity(),
             #[cfg(raqote_verif)]
             verif_id: crate::verif_trace::new_id(width, height),
+            transform: Transform::identity()
         }
     }
 
